@@ -3,6 +3,7 @@
 //! response vector over a small alphabet × weights × offsets × penalties × tolerances × iteration
 //! budgets; oracle: ridge-penalised score equations and Newton decrement in double-double at the
 //! *returned* coefficients, independent deviance / information / prediction formulas.
+const U: f64 = 1.1102230246251565e-16;
 use crate::common::dd::DD;
 use crate::common::enumerate::{par_words, permutations};
 use crate::common::{guard, Run};
@@ -354,7 +355,41 @@ fn judge(run: &Run, inst: &Inst, max_iter: usize, has_mle: bool) {
             // (c) deviance at the fitted means
             let dtol = 10.0 * inst.tol.max(1e-12) * (1.0 + dev.abs()) + 1e-9 * dev.abs();
             let dev_ok = (f.deviance - dev).abs() <= dtol || (inst.w.is_some() && (f.deviance - wdev).abs() <= dtol * (1.0 + wdev.abs()));
-            if !dev_ok {
+            // Gaussian: the deviance is the residual sum of squares at the returned coefficients, which a
+            // direct evaluation delivers to within the rounding of the residuals (not of the responses)
+            let gauss_bad = if inst.fam == Fam::Gaussian {
+                let w = inst.weights();
+                let (mut rss, mut wrss, mut slack, mut wslack) = (DD::ZERO, DD::ZERO, 0.0f64, 0.0f64);
+                for i in 0..inst.n {
+                    let mut m = DD::new(inst.off.as_ref().map(|o| o[i]).unwrap_or(0.0));
+                    let mut mag = inst.y[i].abs() + m.f().abs();
+                    for j in 0..inst.p {
+                        m = m + DD::new(inst.x[i * inst.p + j]) * DD::new(f.coef[j]);
+                        mag += (inst.x[i * inst.p + j] * f.coef[j]).abs();
+                    }
+                    let r = DD::new(inst.y[i]) - m;
+                    let e = (inst.p as f64 + 3.0) * U * mag;
+                    rss = rss + r * r;
+                    wrss = wrss + DD::new(w[i]) * r * r;
+                    slack += 2.0 * r.f().abs() * e + e * e;
+                    wslack += w[i] * (2.0 * r.f().abs() * e + e * e);
+                }
+                let (rss, wrss) = (rss.f(), wrss.f());
+                let nn = inst.n as f64;
+                let ok_u = (f.deviance - rss).abs() <= 8.0 * slack + 8.0 * nn * U * rss + 1e-300;
+                let ok_w = (f.deviance - wrss).abs() <= 8.0 * wslack + 8.0 * nn * U * wrss + 1e-300;
+                if !(ok_u || (inst.w.is_some() && ok_w)) {
+                    run.violate("deviance/gaussian-not-the-residual-sum-of-squares", || format!("{}: deviance() = {:e}, residual sum of squares at the returned coefficients {:e} (weighted {:e}); allowed {:e}", desc(), f.deviance, rss, wrss, 8.0 * slack + 8.0 * nn * U * rss));
+                    true
+                } else {
+                    run.regime("gaussian-deviance-is-rss");
+                    false
+                }
+            } else {
+                false
+            };
+            if gauss_bad {
+            } else if !dev_ok {
                 run.violate(&format!("deviance/{}", fam), || format!("{}: deviance() = {:e}, family deviance at the fitted means {:e} (weighted {:e})", desc(), f.deviance, dev, wdev));
             } else {
                 // (d) dispersion and standard errors
@@ -636,6 +671,64 @@ pub fn run(run: &Run) {
             }
         });
         run.require_regime("spiky-design-with-mle");
+    }
+    // accurate Gaussian fits: responses on a line/parabola up to a disturbance of 1e-3 .. 1e-9 of the signal
+    // (deviance, dispersion and standard errors are those of the residuals, not of the responses)
+    {
+        let mut insts: Vec<Inst> = Vec::new();
+        for &n in &[10usize, 40, 200] {
+            for (dname, x, p) in designs(n).into_iter().skip(1) {
+                for &signal in &[1.0, 1e3] {
+                    for &noise in &[1e-3, 1e-5, 1e-7, 1e-9] {
+                        for wpat in 0..2 {
+                            let beta = [2.0 * signal, -0.75 * signal, 0.5 * signal];
+                            let y: Vec<f64> = (0..n).map(|i| (0..p).map(|j| x[i * p + j] * beta[j]).sum::<f64>() + signal * noise * ((((i * 37 + 11) % 19) as f64) - 9.0) / 9.0).collect();
+                            let w = if wpat == 1 { Some((0..n).map(|i| 1.0 + (i % 3) as f64).collect()) } else { None };
+                            insts.push(Inst { fam: Fam::Gaussian, x: x.clone(), n, p, y, w, off: None, alpha: 0.0, tol: 1e-10, design: dname });
+                        }
+                    }
+                }
+            }
+        }
+        run.bound("accurate Gaussian fits", format!("{} instances: n in {{10,40,200}} × 3 designs × signal {{1,1e3}} × relative disturbance {{1e-3,1e-5,1e-7,1e-9}} × weights {{none, pattern}}", insts.len()));
+        for inst in &insts {
+            run.nontrivial(1);
+            judge(run, inst, 25, true);
+        }
+        run.require_regime("gaussian-deviance-is-rss");
+    }
+    // log-link families with responses in the hundreds and thousands (rates × exposures): a fit that says Ok
+    // satisfies the score equations there as well; an Err is an answer, too
+    {
+        use rayon::prelude::*;
+        let mut insts: Vec<(Inst, usize)> = Vec::new();
+        for &n in &[8usize, 20] {
+            for (dname, x, p) in designs(n).into_iter().take(3) {
+                for &level in &[120.0, 240.0, 300.0, 340.0, 500.0, 2000.0] {
+                    for fam in [Fam::Poisson, Fam::QuasiPoisson, Fam::Gamma, Fam::Exponential] {
+                        let y: Vec<f64> = (0..n).map(|i| (level * (1.0 + 0.3 * x[i * p + p - 1] * if p > 1 { 1.0 } else { 0.0 }) + ((i * 7) % 5) as f64 - 2.0).round().max(1.0)).collect();
+                        for &k in &[25usize, 600, 2500] {
+                            if (k as f64) < 10.0 * level {
+                                insts.push((Inst { fam, x: x.clone(), n, p, y: y.clone(), w: None, off: None, alpha: 0.0, tol: 1e-8, design: dname }, k));
+                            }
+                        }
+                        // the same level reached through an exposure offset
+                        if level >= 240.0 && n == 8 {
+                            let off: Vec<f64> = (0..n).map(|_| (level / 3.0).ln()).collect();
+                            insts.push((Inst { fam, x: x.clone(), n, p, y: y.clone(), w: None, off: Some(off), alpha: 0.0, tol: 1e-8, design: dname }, 600));
+                        }
+                    }
+                }
+            }
+        }
+        run.bound("large-mean log-link fits", format!("{} fits: responses around {{120,240,300,340,500,2000}} × 4 log-link families × 3 designs × n in {{8,20}} × budgets {{25,600,2500}}", insts.len()));
+        insts.par_iter().for_each(|(inst, k)| {
+            let has_mle = inst.mle().is_some();
+            if has_mle {
+                run.nontrivial(1);
+            }
+            judge(run, inst, *k, has_mle);
+        });
     }
     // reordering observations: every permutation of the rows of base instances
     let pn = run.tier.pick(5usize, 6usize);
